@@ -328,7 +328,7 @@ def _user_catalog_class(which):
             class Longitude360Catalog(CSEPCatalog):
                 def get_longitudes(self):
                     lo = self.catalog['longitude']
-                    return numpy.where(lo >= 180.0, lo - 360.0, lo)
+                    return numpy.where(lo > 180.0, lo - 360.0, lo)       # 180 itself is not wrapped
             _SUBCLASSES[which] = Longitude360Catalog
     return _SUBCLASSES[which]
 
@@ -337,13 +337,23 @@ def _building_catalog(ev, subclass):
     from csep.core.catalogs import CSEPCatalog
     if subclass == "negated":
         rows = [(str(i), 1000 * i, -la, -lo, 5.0, 4.0) for i, (lo, la) in enumerate(ev)]
-        return _user_catalog_class("negated")(data=rows, compute_stats=False)
-    if subclass == "lon360":
+        cat = _user_catalog_class("negated")(data=rows, compute_stats=False)
+    elif subclass == "lon360":
         rows = []
         for i, (lo, la) in enumerate(ev):
-            raw = lo + 360.0 if (lo < 0 and (lo + 360.0) - 360.0 == lo and lo + 360.0 >= 180.0) else lo     # only where exact
-            rows.append((str(i), 1000 * i, la, raw if raw < 180.0 or raw - 360.0 == lo else lo, 5.0, 4.0))
-        return _user_catalog_class("lon360")(data=rows, compute_stats=False)
+            # stored in 0..360 only where the accessor gives the real longitude back EXACTLY (and never for +-180 themselves)
+            raw = lo + 360.0 if (-180.0 < lo < 0 and lo + 360.0 > 180.0 and (lo + 360.0) - 360.0 == lo) else lo
+            rows.append((str(i), 1000 * i, la, raw, 5.0, 4.0))
+        cat = _user_catalog_class("lon360")(data=rows, compute_stats=False)
+    else:
+        cat = None
+    if cat is not None:
+        # the accessors are the source of truth: they must return exactly the epicentres the expectation is computed from
+        # (bit for bit, signed zeros and subnormals included); otherwise this catalog is not a valid instance of the class
+        glo, gla = numpy.asarray(cat.get_longitudes(), dtype=float), numpy.asarray(cat.get_latitudes(), dtype=float)
+        want_lo, want_la = numpy.array([e[0] for e in ev], dtype=float), numpy.array([e[1] for e in ev], dtype=float)
+        if glo.shape == want_lo.shape and numpy.array_equal(glo, want_lo, equal_nan=True) and numpy.array_equal(gla, want_la, equal_nan=True):
+            return cat
     return CSEPCatalog(data=[(str(i), 1000 * i, la, lo, 5.0, 4.0) for i, (lo, la) in enumerate(ev)], compute_stats=False)
 
 
